@@ -226,6 +226,16 @@ func init() {
 		res := Val{Elems: []Val{scalar(tb.And(dims, eq)), Val{T: []*Term{tb.Ite(dims, tb.Int(0), errv.ifTag()), tb.Ite(dims, tb.Int(0), errv.ifVal())}}}}
 		k(st, res)
 	}
+	// math.Ceil(float64(n)/c): the only float expression on the codec paths (mask length of sparse signatures).
+	libSpecs["math.Ceil"] = func(e *Engine, st *State, fn *ssa.Function, args []Val, pos token.Pos, k Kont) {
+		a := args[0].T[0]
+		if a.Op == "app" && a.Name == "fdiv" && a.Args[0].Op == "app" && a.Args[0].Name == "int2float" && a.Args[1].Op == "app" && (a.Args[1].Name == "int2float" || a.Args[1].Name == "floatconst") {
+			k(st, scalar(e.tb.App("ceildiv", SInt, a.Args[0].Args[0], a.Args[1].Args[0])))
+			return
+		}
+		k(st, scalar(e.tb.App("lib_math_Ceil", SInt, a)))
+	}
+	libSpecs["math.Log10"] = pureUF("math_Log10")
 	// ---- sync: no concurrency semantics; lock state tracked in ghost "held" ----
 	lockOp := func(acquire bool, try bool) LibFn {
 		return func(e *Engine, st *State, fn *ssa.Function, args []Val, pos token.Pos, k Kont) {
@@ -343,6 +353,12 @@ func (e *Engine) newError(st *State, hint string) Val {
 // ghostArgs flattens a value the way ghost-function arguments are flattened in specs (slice capacities dropped).
 func (e *Engine) ghostArgs(st *State, T types.Type, v Val) []*Term {
 	if px, ok := v.ann("").(*PtrX); ok {
+		if px.Kind == PLocal {
+			v = e.plainPtr(st, v)
+			if _, still := v.ann("").(*PtrX); !still {
+				return []*Term{v.T[0]}
+			}
+		}
 		// interior pointers are identified by (object, field path)
 		switch px.Kind {
 		case PField:
